@@ -1048,8 +1048,7 @@ int EGLPNUM_TYPENAME_ILLlib_addrows (
 
 		lp->nrows = lp->O->nrows;
 		lp->ncols = lp->O->ncols;
-		if (B->rownorms_size < lp->O->nrows + num)
-			EGLPNUM_TYPENAME_EGlpNumReallocArray (&(B->rownorms), lp->O->nrows + num);
+		EGLPNUM_TYPENAME_EGlpNumReallocArray (&(B->rownorms), lp->O->nrows + num);
 
 		ILL_SAFE_MALLOC (bcnt, num, int);
 		ILL_SAFE_MALLOC (bbeg, num, int);
@@ -1168,8 +1167,7 @@ int EGLPNUM_TYPENAME_ILLlib_addrows (
 			MESSAGE (__QS_SB_VERB, "Singular Basis found!");
 		*factorok = 1;
 
-		if (B->rownorms_size < lp->O->nrows)
-			EGLPNUM_TYPENAME_EGlpNumReallocArray (&(B->rownorms), lp->O->nrows);
+		EGLPNUM_TYPENAME_EGlpNumReallocArray (&(B->rownorms), lp->O->nrows);
 
 		ILL_SAFE_MALLOC (rindi, lp->O->nrows /* num */ , int);
 
